@@ -185,6 +185,7 @@ bool ops_repl(World &w, const Op &o) {
       std::string a = tree_sets_text(ds), b = tree_sets_text(dd);
       if (a != b && tree_sets_text(memccs_normalised(ds)) == tree_sets_text(memccs_normalised(dd))) viol0(w, "C05", "xml.v2_tree_differs.memory_child_complete_cpuset", "only the complete_cpuset of memory objects differs: the exported topology has a NUMA node/MemCache whose complete_cpuset is not its parent's, XML import always copies the parent's");
       if (a != b) { std::string la, lb; first_diff(a, b, la, lb); viol0(w, "C05", "xml.v2_tree_differs", "v2 export reloads to a different tree/sets: '%s' vs '%s'", la.c_str(), lb.c_str()); }
+      for (auto &kv : dd.objs) if (kv.second.userdata) D.userdata[kv.first] = kv.second.userdata;   // tokens restored by the import callback
       derive_models(w, si, di, true);   // v2 format promises tree and sets only: the models restart from what the reload reports
       S.last = ds; S.last_text = ds.text();
       return true;
